@@ -82,7 +82,7 @@ def emit_crash_obligations(ctx, fs, v_old, v_new, label):
             ctx.oblige(f"{label}[{mode}#{k}]", z3.Or(r == v_old, r == v_new), kind="crash")
 
 
-@contract("mysensors.persistence:Persistence.save_sensors", props=["C12", "C14", "C15"])
+@contract("mysensors.persistence:Persistence.save_sensors", props=["C06", "C12", "C14", "C15"])
 class SaveSensors:
     """Crash Hoare logic on the real save: at every file operation boundary, every state a crash can
     leave recovers to the complete old or the complete new state; same after a failing operation."""
